@@ -239,6 +239,8 @@ def obj_handle_root(v):
             v = t[2]
         elif t[0] == 'agg' and len(t) == 4:
             v = t[3]
+        elif t[0] == 'sym' and t[1] == 'app' and prims.classify(t[2])[0] == 'fd_dup' and len(t) > 4:
+            v = t[4]        # dup(2) / try_clone(): the duplicate shares the file offset with the original
         else:
             return v
     return v
